@@ -488,7 +488,8 @@ static void recTestsEnded(const TestResult& res) {
     void printFailure(const TestFailure& f) CPPUTEST_OVERRIDE { if (RS.primaryOutput == this) recFailure(f); Base::printFailure(f); }
 
 class RecConsole : public ConsoleTestOutput { public: REC_OVERRIDES(ConsoleTestOutput) };
-class RecJUnit : public JUnitTestOutput { public: REC_OVERRIDES(JUnitTestOutput) };
+class RecJUnit : public JUnitTestOutput { public: REC_OVERRIDES(JUnitTestOutput)
+    void print(const char* s) CPPUTEST_OVERRIDE { if (RS.primaryOutput == this && RS.o && !PS.inChild) RS.o->printedChunks.push_back(s ? s : ""); JUnitTestOutput::print(s); } };
 class RecTeamCity : public TeamCityTestOutput { public: REC_OVERRIDES(TeamCityTestOutput) };
 
 class SimRunner : public CommandLineTestRunner {
